@@ -218,8 +218,14 @@ def translate_class(cls: ast.ClassDef, helpers) -> list[str]:
 
 
 def generate(repo: Path | None = None) -> str:
-    repo = repo or common.REPO
-    base = Path(repo) / "src" / "gemseo" / "uncertainty" / "distributions"
+    if repo is None:
+        # the sources of the gemseo package actually imported by the harness (a scratch worktree when
+        # PYTHONPATH points to one), so that translator and correspondence look at the same code
+        import gemseo
+
+        base = Path(gemseo.__file__).resolve().parent / "uncertainty" / "distributions"
+    else:
+        base = Path(repo) / "src" / "gemseo" / "uncertainty" / "distributions"
     helpers = {}
     util = base / "_log_normal_utils.py"
     if util.exists():
